@@ -99,8 +99,13 @@ def gen_cases(rng, tier):
                 for closing in ("c", "x"):
                     suffixes = [0, 1, 2, 3] if tier == "thorough" else [r.choice([0, 1, 2, 3])]
                     for k in suffixes:
-                        cases.append({"kind": "split", "target": target, "adapter": adapter, "sub": sub, "n": n,
-                                      "limit": limit, "suffix": k, "closing": closing})
+                        case = {"kind": "split", "target": target, "adapter": adapter, "sub": sub, "n": n,
+                                "limit": limit, "suffix": k, "closing": closing}
+                        if sub and r.chance(35):
+                            # adapter scheme + a bare file name, relative to the working directory
+                            # (`rdump --split=N -w jsonfile://out.json` run inside the output directory)
+                            case["rel"] = True
+                        cases.append(case)
     # many parts: the index outgrows the suffix length
     for k, n in ((1, 12), (2, 101), (0, 11)):
         cases.append({"kind": "split", "target": "out.records", "adapter": "stream", "sub": "", "n": n, "limit": 1,
@@ -327,6 +332,8 @@ def _run_life(case):
 
 def _split_url(case, d):
     q = f"?count={case['limit']}&suffix-length={case['suffix']}"
+    if case["sub"] and case.get("rel"):
+        return f"split+{case['sub']}://{case['target']}{q}"
     if case["sub"]:
         return f"split+{case['sub']}://{d}/{case['target']}{q}"
     return f"split://{d}/{case['target']}{q}"
@@ -339,7 +346,10 @@ def _part_url(case, path):
 def _run_split(case):
     from flow.record import RecordReader, RecordWriter
     d = tempfile.mkdtemp(prefix="frv-c17-")
+    cwd = os.getcwd()
     try:
+        if case.get("rel"):
+            os.chdir(d)
         w = RecordWriter(_split_url(case, d))
         two = case["adapter"] == "stream"
         outcomes = _apply_ops(w, "w" * case["n"] + case["closing"], lambda i: _rec(i, (i % 2) if two else 0))
@@ -364,6 +374,7 @@ def _run_split(case):
         del w
         return obs
     finally:
+        os.chdir(cwd)
         shutil.rmtree(d, ignore_errors=True)
 
 
